@@ -10,6 +10,7 @@ DECIDED = ("R1 Host::assign_ephemeral_port returns a candidate only behind the f
            "address counter is only incremented, reverse lookup reads the same map.")
 NOT_DECIDED = ("distinctness beyond the 16-bit v4 host space, wrap-around behaviour as histories, crash releasing ports as behaviour "
                "(C04 covers the destructors).")
+DECIDED += "; R1 compares the very read that produced the returned port with the argument of both in-use checks (flow-sensitive read site)"
 ASSUMPTIONS = ["IndexMap::entry Occupied/Vacant semantics"]
 
 
